@@ -263,3 +263,76 @@ theorem prune_selects (d : Db) (cid : Nat) (l : LoopRow) (hl : l.cid = cid) :
     rw [hr] at this; cases this
 
 end CifModel.Store
+
+namespace CifModel.Store
+open Gen.ErrCodes
+
+/-- a loop without packets satisfies `RowsBelow` trivially -/
+theorem rowsBelow_of_no_packets (d : Db) (x : LoopRow) (h : (absLoop d x).packets = []) : RowsBelow d x.cid x.loopNum := by
+  intro r _ _ _ v hv hc ha
+  have hr : d.loopRows x.cid x.loopNum = [] := by
+    rw [absLoop_eq] at h; simpa using h
+  have : v.rowNum ∈ d.loopRows x.cid x.loopNum := (mem_loopRows_iff d _ _ _).mpr ⟨v, hv, hc, ha, rfl⟩
+  rw [hr] at this; cases this
+
+/-- cif_loop_add_item_internal reports (sqlite3_changes of SET_ALL_VALUES_SQL) the number of packets of the loop -/
+theorem addItemBody_count (d d' : Db) (l : LH) (key orig : Str) (v : V) (n : Nat) (x : LoopRow) (h : Inv d)
+    (hxk : x.cid = l.cid ∧ x.loopNum = l.loopNum) (he : addItemBody l key orig v d = .ok (d', n)) :
+    n = (absLoop d x).packets.length := by
+  unfold addItemBody at he
+  split at he
+  · cases he
+  · rename_i d1 hins
+    simp only [Except.ok.injEq] at he
+    have hspec : d1 = { d with items := d.items ++ [{ cid := l.cid, name := key, nameOrig := orig, loopNum := l.loopNum }] } ∧
+        d.hasItem l.cid key = false := by
+      unfold Db.insertItem at hins
+      split at hins; · cases hins
+      rename_i hfresh
+      split at hins; · cases hins
+      cases hins
+      exact ⟨rfl, by simpa using hfresh⟩
+    obtain ⟨hd1, hfresh⟩ := hspec
+    -- the only item with that key is the new one
+    have hloop : d1.loopOfItem l.cid key = some l.loopNum := by
+      unfold Db.loopOfItem
+      rw [hd1]
+      simp only [List.find?_append]
+      have : d.items.find? (fun i => i.cid == l.cid && i.name == key) = none := by
+        rw [List.find?_eq_none]
+        intro i hi hk
+        simp at hk
+        have : d.hasItem l.cid key = true := (hasItem_iff d _ _).mpr ⟨i, hi, hk.1, hk.2⟩
+        rw [hfresh] at this; cases this
+      rw [this]; simp
+    have hn : n = (d1.loopRows l.cid l.loopNum).length := by
+      have : (d1.setAllValues l.cid key v).2 = n := by rw [he]
+      simp only [Db.setAllValues, hloop] at this
+      exact this.symm
+    have hrows : d1.loopRows l.cid l.loopNum = d.loopRows l.cid l.loopNum := by
+      unfold Db.loopRows
+      rw [hd1]
+      simp only [Db.loopItems, List.filter_append]
+      have hnew : [({ cid := l.cid, name := key, nameOrig := orig, loopNum := l.loopNum } : ItemRow)].filter (fun i => i.cid == l.cid && i.loopNum == l.loopNum) =
+          [{ cid := l.cid, name := key, nameOrig := orig, loopNum := l.loopNum }] := by simp
+      rw [hnew]
+      congr 1
+      apply List.filter_congr
+      intro w hw
+      simp only [List.any_append, List.any_cons, List.any_nil, Bool.or_false]
+      cases hc : (w.cid == l.cid) with
+      | false => simp
+      | true =>
+        have hcc : w.cid = l.cid := by simpa using hc
+        have : (key == w.name) = false := by
+          cases hk : (key == w.name) with
+          | false => rfl
+          | true =>
+            have hkk : key = w.name := by simpa using hk
+            have := h.valueFK w hw
+            rw [hcc, ← hkk, hfresh] at this; cases this
+        simp [this]
+    rw [hn, hrows, absLoop_eq, hxk.1, hxk.2]
+    simp
+
+end CifModel.Store
